@@ -107,6 +107,27 @@ CHECKS = {
          "5.C20"),
 }
 
+# what the third round of seeded changes added to each check (appended to the level text; details in DESIGN.md 10.5b)
+ROUND3 = {
+ "C01": "Also: keytabs loaded from bytes with key versions that need more than 8 / 16 / 31 bits (tickets labelled with the version and with its low octets only), and PAC containers that cannot be parsed.",
+ "C02": "Also: the cache's own janitor, observed in one child process per clock skew (2.5 s, 1.7 s, 7 s, 999 ms, 3 s) in which it sleeps and wakes on the virtual clock while VerifyAPREQ histories with sub-second advances run; a volume history (200 000 / 2 000 000 distinct authenticators of one client, each presented twice); the service's name type varies between presentations of one authenticator.",
+ "C03": "Also: client realms of any letter case; address-bound tickets presented from 9 forms of peer address (other family, IPv4-mapped, unparseable RemoteAddr); 480 NegTokenResp shapes (negState x mechanism x token x MIC) and every challenge the wrapper itself sent echoed back as Authorization.",
+ "C04": "Also phase C, sequences of valid replies: a simulated KDC that answers every TGS request with a correctly sealed referral (ping-pong, ring, self-referral, chain of twelve realms); the oracle is the number of TGS requests the KDC received when GetServiceTicket returns (the KDC stops referring after 200 only so that a non-terminating client returns).",
+ "C07": "Also: returned checksums are kept (the slices themselves) and must keep their value across later calls by the same and by three other goroutines; data and key passed in must be unmodified.",
+ "C08": "Also: des3 DK/DR constants of 9..16 bytes judged (n-fold to the block size whenever the length differs, as MIT does), ETYPE-INFO entries without a salt in every ordered subset, default salt and default-salt keys for realms and names of any letter case.",
+ "C09": "Also: nonces equal to the request's only modulo 2^32 or differing in sign / top bit; key usage numbers 7, 9, 11, 12, +256, +2^16 and seeded others; two-step histories: after a rejected reply the KDC turns honest and the same client is asked again - neither the ticket cache, nor the next result, nor the TGT of a later TGS request may come from the rejected reply.",
+ "C10": "Also: cross-realm sessions reached through [domain_realm] whose TGT can no longer be renewed when virtual time passes its end, and configurations whose default_tkt_enctypes and default_tgs_enctypes differ.",
+ "C12": "Also: KDC host names with several addresses, SRV discovery with per-transport record sets (both through an in-test DNS responder behind net.DefaultResolver), and UDP replies of every size class up to 4096 bytes whose bytes must reach the caller unchanged.",
+ "C13": "Also: KerberosFlags of 33..72 (and up to 400) bits in every flag-bearing type, and re-encoding of a decoded AP-REQ after it was used (Verify with and without a keytab-principal override, VerifyAPREQ, PAC decoding, decryption).",
+ "C14": "Also: names whose '/'-joined text is cut into the same number of components at other places (entries and near-miss look-ups), and the buffer given to Unmarshal is overwritten as soon as the call returns: the parsed entries must not change.",
+ "C15": "Also: negative (sign-extended 16-bit) key types, caches with several credentials for one server (the client must hold ticket and key of the same one; the TGT probe accepts any written TGT with its own key), and the buffer given to Unmarshal is overwritten after the call.",
+ "C16": "Also: curly brackets inside values (auth_to_local rules with {n} quantifiers, 'a}b', 'x{y'), realm names differing in letter case only, and near-miss realm look-ups (case variants, one character more or less) that must find no servers.",
+ "C17": "Also: every value of the flags octet 8..255 (reserved bits carried or cleared, but consistently on the wire and under the checksum), key usage numbers above 255, and payloads around 2^16 octets.",
+ "C18": "Also: http.Client values with application redirect policies (allow, allow below n, ErrUseLastResponse, refuse), transports with MaxConnsPerHost 1 and 401 bodies of up to 70 000 bytes, groups of 2-4 concurrent calls on one limited transport; a challenge that was delivered must be answered by a retry to the challenged target; a call without progress is re-run alone before it counts.",
+ "C19": "Also: keytabs with 2-4 key versions per service (PAC signed with each key in turn, tickets under every version), histories of 2-5 PACs on one reused PACType value, and the identity (user name, display name, attributes, JSON) after Marshal/Unmarshal round trips and through a session store.",
+ "C20": "Also: damaged (not truncated) keytab and ccache files - every 16/32-bit field rewritten with boundary and in-file lengths, ~40 000 per file -, malformed Basic header values that contain the password, keytabs with foreign-realm and case-variant entries with Diagnostics before and after login, and a kpasswd reply that reflects the request's own KRB-PRIV.",
+}
+
 NOT_YET = "check not built yet in this revision of /verif (construction in progress, see DESIGN.md section 9)"
 
 def main():
@@ -117,6 +138,8 @@ def main():
         i = p["id"]
         if i in CHECKS:
             tech, cat, text, note, ref = CHECKS[i]
+            if i in ROUND3:
+                text = text.rstrip() + " " + ROUND3[i]
             checks.append({
                 "property_id": i,
                 "quick_cmd": f"./check {i} quick",
